@@ -239,11 +239,6 @@ def gen(tier, r, pki):
             c = {'server': 'valid', 'by_name': True, 'cli': 'none', 'endpoint': 'none', 'global': 'none', 'withdraw': kind}
             c[where] = 'right'
             wd.append(c)
-    if tier == 'quick':
-        r.shuffle(wd)
-        wd = wd[:6]
-        r.shuffle(henv)
-        henv = henv[:7]
     cases = cases + broken + leak + henv + wd
     for i, c in enumerate(cases):
         c['i'] = i
